@@ -162,9 +162,25 @@ def _cat_gen(rng, tier):
         yield dict(chunks=chunks, allow_superrun=rng.random() < 0.3)
 
 
+def _runs_not_contiguous(chunks):
+    """In superrun mode the pieces of one run must be contiguous (the bookkeeping refuses gaps inside a run)."""
+    spans = {}
+    for c in chunks:
+        for rid, se in (c.superrun or {}).items():
+            spans.setdefault(rid, []).append((se["start"], se["end"]))
+    for rid, lst in spans.items():
+        lst.sort()
+        if any(lst[k + 1][0] != lst[k][1] for k in range(len(lst) - 1)):
+            return True
+    return False
+
+
 def _cat_raise_ok(S, a):
     chunks = [c._obj for c in a.chunks if c is not None]
-    return _cat_bad(chunks, a.allow_superrun)
+    if _cat_bad(chunks, a.allow_superrun):
+        return True
+    # several runs: the superrun bookkeeping additionally refuses a run whose pieces leave a gap
+    return len({c.run_id for c in chunks}) > 1 and a.allow_superrun and _runs_not_contiguous(chunks)
 
 
 concatenate = Contract(
